@@ -93,26 +93,44 @@ def _fold_face_to_cell(f):
         env = {f.params[0]: grid, f.params[1]: flux, f.params[2]: ([ptv] if dim == 1 else ptv)}
         ref = Folder(symbolic=True)
 
+        from ..terms import nf
+
         def term(src):
-            return repr(ref.ev(ast.parse(src, mode="eval").body, env))
-        want = {}
+            return nf(ref.ev(ast.parse(src, mode="eval").body, env))
         g_, fl_, pt_ = f.params[0], f.params[1], f.params[2]
+        # the face values and the point coordinates, as they appear in normal-form terms, become polynomial atoms R<d>, P<d>
+        atoms = {}
         for d in range(dim):
-            R_ = f"{fl_}[{g_}.faces[{d}]].reshape({g_}.faces_shape[{d}], order='F')"
+            atoms[term(f"{fl_}[{g_}.faces[{d}]].reshape({g_}.faces_shape[{d}], order='F')")] = f"R{d}"
+        for d in range(dim):
+            atoms[term(f"{pt_}[{d}]")] = f"P{d}"
+        want = {}
+        for d in range(dim):
             lead = (slice(None),) * d
-            want[_show_index(lead + (slice(None, -1), Ellipsis, d))] = {term(f"{pt_}[{d}] * {R_}"), term(f"{R_} * {pt_}[{d}]")}
-            want[_show_index(lead + (slice(1, None), Ellipsis, d))] = {term(f"(1 - {pt_}[{d}]) * {R_}"), term(f"{R_} * (1 - {pt_}[{d}])")}
+            P_, R_ = Poly.atom(f"P{d}"), Poly.atom(f"R{d}")
+            want[_show_index(lead + (slice(None, -1), Ellipsis, d))] = P_ * R_
+            want[_show_index(lead + (slice(1, None), Ellipsis, d))] = (Poly.const(1) - P_) * R_
         got = {}
         for t in ups:
             idx, op, val = t.args[1], t.args[2], t.args[3]
-            if not isinstance(idx, tuple):
+            if not isinstance(idx, tuple) or op not in ("+", "-"):
                 return None
-            got.setdefault(_show_index(idx), []).append((op, repr(val)))
-        for idx, alts in want.items():
-            g = got.get(idx, [])
-            if len(g) != 1 or g[0][0] != "+" or g[0][1] not in alts:
-                bad.append(f"dim {dim}: update of out[{idx}] is {g or 'missing'}, documented += {sorted(alts)[0]}")
-        extra = [i for i in got if i not in want]
+            txt = nf(val)
+            for k_ in sorted(atoms, key=len, reverse=True):
+                txt = txt.replace(k_, atoms[k_])
+            try:
+                p = ToPoly()(ast.parse(txt, mode="eval").body)
+            except (NotPolynomial, SyntaxError):
+                return None
+            if not set(p.atoms()) <= set(atoms.values()):
+                return None  # operands this rule does not know: not decided here
+            key = _show_index(idx)
+            got[key] = got.get(key, Poly.const(0)) + (p if op == "+" else Poly.const(0) - p)
+        for idx, w in want.items():
+            g = got.get(idx)
+            if g is None or g != w:
+                bad.append(f"dim {dim}: out[{idx}] accumulates {g!r}, documented {w!r} (P = evaluation point, R = fluxes on the faces of the axis)")
+        extra = [i for i in got if i not in want and got[i] != Poly.const(0)]
         if extra:
             bad.append(f"dim {dim}: additional updates at {extra}")
     return bad
@@ -121,7 +139,7 @@ def _fold_face_to_cell(f):
 def _show_index(idx):
     def one(x):
         if isinstance(x, slice):
-            return f"{'' if x.start is None else x.start}:{'' if x.stop is None else x.stop}"
+            return f"{'' if x.start in (None, 0) else x.start}:{'' if x.stop is None else x.stop}"
         return "..." if x is Ellipsis else repr(x)
     return ", ".join(one(x) for x in idx)
 
